@@ -795,6 +795,12 @@ theorem read_complete (s : Sock) (r : Req) (s' : Sock) (hs : Healthy s)
         | ok hs' =>
           rw [hhs] at h
           simp only [] at h
+          by_cases hte : (hasHeader hs'.2 sTransferEncoding && !isChunked (header hs'.2 sTransferEncoding)) = true
+          · simp only [hte, if_true, pure, Except.pure, Except.ok.injEq, Prod.mk.injEq] at h
+            obtain ⟨_, hsock⟩ := h
+            rw [← hsock] at hd
+            simp [Healthy] at hd
+          simp only [hte, Bool.false_eq_true, if_false] at h
           cases hb : readBody (expectContinue hs'.1 hs'.2) hs'.2 with
           | error e => rw [hb] at h; simp at h
           | ok b =>
@@ -817,6 +823,58 @@ theorem read_complete (s : Sock) (r : Req) (s' : Sock) (hs : Healthy s)
               · rw [hrl, ← hreq]
               · rw [← hreq]; exact hblk
               · rw [← hreq]; exact hbf
+
+/-- a request that comes out of `read` on a connection left healthy either has no Transfer-Encoding or its last
+    coding is chunked (anything else closes the connection) -/
+theorem read_transfer_encoding (s : Sock) (r : Req) (s' : Sock)
+    (h : AslModel.HttpParse.read s = .ok (r, s')) (hd : Healthy s') (hm : r.method ≠ []) :
+    hasHeader r.headers sTransferEncoding = false ∨ isChunked (header r.headers sTransferEncoding) = true := by
+  unfold AslModel.HttpParse.read at h
+  simp only [] at h
+  split at h
+  · simp only [pure, Except.pure, Except.ok.injEq, Prod.mk.injEq] at h
+    rw [← h.1] at hm; exact absurd rfl hm
+  · cases hrl : parseRequestLine s.readLine.1 with
+    | error e => rw [hrl] at h; simp [bind, Except.bind] at h
+    | ok rl? =>
+      rw [hrl] at h
+      simp only [bind, Except.bind] at h
+      cases rl? with
+      | none =>
+        simp only [pure, Except.pure, Except.ok.injEq, Prod.mk.injEq] at h
+        rw [← h.1] at hm; exact absurd rfl hm
+      | some rl =>
+        simp only [] at h
+        cases hhs : readHeaders s.readLine.2 with
+        | error e => rw [hhs] at h; simp at h
+        | ok hs' =>
+          rw [hhs] at h
+          simp only [] at h
+          by_cases hte : (hasHeader hs'.2 sTransferEncoding && !isChunked (header hs'.2 sTransferEncoding)) = true
+          · simp only [hte, if_true, pure, Except.pure, Except.ok.injEq, Prod.mk.injEq] at h
+            obtain ⟨_, hsock⟩ := h
+            rw [← hsock] at hd
+            simp [Healthy] at hd
+          simp only [hte, Bool.false_eq_true, if_false] at h
+          cases hb : readBody (expectContinue hs'.1 hs'.2) hs'.2 with
+          | error e => rw [hb] at h; simp at h
+          | ok b =>
+            rw [hb] at h
+            simp only [] at h
+            cases ht : parseTarget rl.res with
+            | error e => rw [ht] at h; simp at h
+            | ok t =>
+              rw [ht] at h
+              simp only [pure, Except.pure, Except.ok.injEq, Prod.mk.injEq] at h
+              obtain ⟨hreq, _⟩ := h
+              rw [← hreq]
+              simp only []
+              cases hh : hasHeader hs'.2 sTransferEncoding with
+              | false => exact Or.inl rfl
+              | true =>
+                right
+                simp only [hh, Bool.true_and, Bool.not_eq_true', Bool.not_eq_false] at hte
+                exact hte
 
 /-- one pass of the `serve` loop hands a request to the application only if `read` returned it, with a method, on
     a connection that was healthy before and after -/
@@ -1017,6 +1075,12 @@ theorem read_complete_at (stream pre : Bytes) (s : Sock) (r : Req) (s' : Sock) (
         | ok hs' =>
           rw [hhs] at h
           simp only [] at h
+          by_cases hte : (hasHeader hs'.2 sTransferEncoding && !isChunked (header hs'.2 sTransferEncoding)) = true
+          · simp only [hte, if_true, pure, Except.pure, Except.ok.injEq, Prod.mk.injEq] at h
+            obtain ⟨_, hsock⟩ := h
+            rw [← hsock] at hd
+            simp [Healthy] at hd
+          simp only [hte, Bool.false_eq_true, if_false] at h
           cases hb : readBody (expectContinue hs'.1 hs'.2) hs'.2 with
           | error e => rw [hb] at h; simp at h
           | ok b =>
@@ -1230,6 +1294,14 @@ theorem read_suffix (s : Sock) (r : Req × Sock) (h : AslModel.HttpParse.read s 
         | ok hs' =>
           rw [hhs] at h
           simp only [] at h
+          by_cases hte : (hasHeader hs'.2 sTransferEncoding && !isChunked (header hs'.2 sTransferEncoding)) = true
+          · simp only [hte, if_true, pure, Except.pure, Except.ok.injEq] at h
+            subst h
+            unfold readHeaders at hhs
+            obtain ⟨w2, hw2⟩ := iterate_headers_suffix _ _ hs' hhs
+            simp only at hw2
+            exact ⟨w1 ++ w2, by rw [hw1, hw2]; simp only [List.append_assoc]⟩
+          simp only [hte, Bool.false_eq_true, if_false] at h
           cases hb : readBody (expectContinue hs'.1 hs'.2) hs'.2 with
           | error e => rw [hb] at h; simp at h
           | ok b =>
